@@ -88,6 +88,11 @@ func isUsed(field string, node Node) bool {
 						used = true
 					}
 				}
+			case NodeTypeUnnest:
+				// The unnested field decides how many rows come out, even if nothing above reads it.
+				if node.Unnest.Field == field {
+					used = true
+				}
 			default:
 			}
 
